@@ -342,7 +342,12 @@ def run_harness(engine, scen_file, out_prefix, workers=None, extra=(), timeout=1
             one = "%s.one%d" % (scen_file, c)
             with open(one, "w") as f:
                 f.write(lines[c] + "\n")
-            q = _run_harness_once(engine, one, "%s.one%d" % (out_prefix, c), 1, extra, 300, tags, env)
+            try:
+                q = _run_harness_once(engine, one, "%s.one%d" % (out_prefix, c), 1, extra, 300, tags, env)
+            except Infra:
+                # alone it does not finish within five minutes: a call that never returns (or recoveries that crawl)
+                import types as _types
+                q = _types.SimpleNamespace(returncode=124, stderr="the scenario alone did not finish within 300 s", stdout="")
             return c, q
         culprits = []
         with cf.ThreadPoolExecutor(max_workers=8) as ex:
